@@ -81,6 +81,26 @@ func jsonCells(tier string) []cells.Cell {
 		addTop(s, o)
 		out = append(out, cells.NewCell("json-obj3", map[string]string{"props": strings.Join(desc, ";")}, s))
 	}
+	// two properties of different kinds in one object (both optional, inline): the encoder and decoder of
+	// one property next to those of another (separators, scratch variables, hoisted types)
+	{
+		pk := []string{"int32", "string", "date-time", "array<string>", "object", "oneOf[ref,ref]", "map<string>", "any"}
+		if tier != "quick" {
+			pk = append(pk, "boolean", "number", "array<object>", "array<ref>", "allOf[ref,inline]", "oneOf+disc", "object+add<string>", "array<map<int32>>", "array<array<string>>", "map<ref>")
+		}
+		for _, ka := range pk {
+			for _, kb := range pk {
+				if ka == kb {
+					continue
+				}
+				s, _, _ := cells.Base()
+				pa := cells.Materialise(s, cells.KindByName(ka), "inline", false, "KA")
+				pb := cells.Materialise(s, cells.KindByName(kb), "inline", false, "KB")
+				addTop(s, spec.Obj(spec.P("f", pa), spec.P("g", pb)))
+				out = append(out, cells.NewCell("json-pair", map[string]string{"first": ka, "second": kb}, s))
+			}
+		}
+	}
 	// allOf member orders
 	members := map[string]func(s *spec.Spec) *spec.Schema{
 		"refAB": func(s *spec.Spec) *spec.Schema {
